@@ -98,6 +98,9 @@ SITES = {
     "for-of-body": "for (var v0 of [1]) { %(S)s }",
     "switch-case": "switch (1) { case 1: %(S)s }",
     "labelled-block": "B0: { %(S)s }",
+    # an exposed Python callable re-entered eval() on the same context before the spinner starts
+    "after-host-reentry": "reenter(); %(S)s",
+    "host-reentry-in-callback": "[1].forEach(function(){ reenter(); }); %(S)s",
     "deep-call": "var d = function(n){ if (n == 0) { %(S)s } else { d(n - 1); } }; d(20);",
 }
 
@@ -192,6 +195,7 @@ def run_case(case):
     T = t_ms / 1000.0
     ctx = m.Context(memory_limit=mem, time_limit=T)
     ctx.set("hit", hit)
+    ctx.set("reenter", lambda: ctx.eval("var reentered = 1; reentered + 1"))
     if clock:
         clock.reset()
     cpu0 = time.process_time()
